@@ -53,6 +53,14 @@ type c14Case struct {
 	// TDS_BUF_RESPONSE (the library parses the body of a packet whatever
 	// its type; TDS_BUF_CLOSE packets get special treatment at end of stream)
 	HeaderType int `json:"packet_header_type,omitempty"`
+	// LateEOM: the end-of-message status travels on a trailing header-only
+	// packet. PauseMs (with per-packet chunking): that long nothing arrives
+	// before the LAST delivered packet. EmptyReadEOF: the transport answers
+	// a read with an empty buffer with the terminal error once nothing is
+	// left (pipe-like transports do).
+	LateEOM      bool `json:"header_only_eom_packet,omitempty"`
+	PauseMs      int  `json:"pause_before_the_last_packet_ms,omitempty"`
+	EmptyReadEOF bool `json:"empty_read_reports_the_failure,omitempty"`
 }
 
 func c14Err(style string) error {
@@ -122,7 +130,7 @@ func c14Run(c *Ctx, cs c14Case, ref []string) {
 	r := c.R
 	r.Eval(1)
 	body, _ := hex.DecodeString(cs.BodyHex)
-	pkts := c02Packets(body, cs.Cuts, nil, false)
+	pkts := c02Packets(body, cs.Cuts, nil, cs.LateEOM)
 	if cs.HeaderType != 0 {
 		for i := range pkts {
 			p := append([]byte(nil), pkts[i]...)
@@ -140,6 +148,7 @@ func c14Run(c *Ctx, cs c14Case, ref []string) {
 		return
 	}
 	defer k.teardown()
+	k.tr.EOFOnEmptyRead = cs.EmptyReadEOF
 	var ch1 *tds.Channel
 	var ch1ID uint16
 	if cs.SecondChannel {
@@ -183,6 +192,11 @@ func c14Run(c *Ctx, cs c14Case, ref []string) {
 			end := off + len(p)
 			if end > len(prefix) {
 				end = len(prefix)
+			}
+			if cs.PauseMs > 0 && off+len(p) >= len(prefix) {
+				// the reader has processed what came so far and waits
+				awaitIdle(k.tr, 20*time.Second)
+				time.Sleep(time.Duration(cs.PauseMs) * time.Millisecond)
 			}
 			k.tr.Feed(prefix[off:end])
 			off += len(p)
@@ -563,6 +577,18 @@ func runC14(c *Ctx) {
 				}
 				if pi < len(pk) {
 					bo += len(pk[pi])
+				}
+			}
+			// timed leg: the whole response arrives, its end-of-message
+			// status on a trailing header-only packet that comes after a
+			// pause longer than the read timeout; then the transport ends.
+			// Everything lies in completely received packets.
+			if cu.name != "random-cuts" {
+				for _, emptyEOF := range []bool{true, false} {
+					cs := base
+					cs.LateEOM, cs.Chunk, cs.ReadTimeout, cs.PauseMs, cs.EmptyReadEOF = true, "per-packet", 1, 1300, emptyEOF
+					cs.Offset, cs.Style = n+8, "eof"
+					jobs = append(jobs, job{cs, refOut.d.Dumps})
 				}
 			}
 			// timed leg: sampled offsets with a 1 s read timeout
